@@ -222,6 +222,12 @@ def run(run, replay=None):
                "cox3334": cc.sym(4, [3, 2, 4, 3, 2, 3]), "cox535": cc.sym(4, [5, 2, 2, 3, 2, 5])}
     bl = list(builtin.items())
     batches.append(("builtin", [M for _, M in bl], [(9 if quick else 12) if len(M) == 3 else (6 if quick else 8) for _, M in bl], 1, True))
+    if replay:
+        # re-execute the failing matrix of a replay file under every construction variant
+        first = json.load(open(replay))["first"]
+        M = first["detail"].get("matrix") or first["detail"]["case"]["matrix"]
+        rad = {2: 14, 3: 8 if quick else 10, 4: 5 if quick else 6}.get(len(M), 4 if quick else 5)
+        batches = [("replay", [M], [rad], 4, len(M) < 5)] + batches[-1:]
     run.assumptions += [
         "entries 2..7 and infinity (rank 2: 2..12); words up to the radius of each batch: " +
         ", ".join("%s: %d matrices, L=%d" % (t, len(ms), max(rs)) for (t, ms, rs, _, _) in batches),
@@ -231,42 +237,55 @@ def run(run, replay=None):
         "even-length variant observed through enumerate_words / accepts on two-letter labels; not built for rank 5 (automaton_multiple is quadratic)",
         "lexicographic order: order of the generators in ordered_gens (matrix index order)",
     ]
-    MATS = []
-    RADS = []
-    plan = []
-    for (tag, ms, rs, nv, even) in batches:
-        for M, L in zip(ms, rs):
-            plan.append((len(MATS), nv, even))
-            MATS.append(M)
-            RADS.append(L)
     workers = min(8, core.NCPU)
-    r, obs, edges, _, _ = cc.run_batch(run, "CoxeterWalk", MATS, RADS, "CoxeterWalk",
-                                       invariants=["TypeOK", "Closed", "DescentsSane", "RelationsHold", "EmitObs"],
-                                       action_constraints=["Emit"], workers=workers if quick else min(12, core.NCPU))
-    SPEC = {m: prepare(MATS[m], RADS[m], obs[m]) for m in range(len(MATS))}
-    run.extra["matrices"] = len(MATS)
-    run.extra["elements"] = sum(len(o) for o in obs)
-    run.extra["reduced_words"] = sum(len(sp["reduced"]) for sp in SPEC.values())
-    # heavy matrices first
-    plan.sort(key=lambda a: -len(SPEC[a[0]]["reduced"]) * a[1])
-    with mp.get_context("fork").Pool(workers) as pool:
-        outs = pool.map(check_matrix, plan, chunksize=4)
-    for (m, tot, bad, sample) in outs:
-        run.evaluations += tot
-        run.traces += 1
-        for ctx, clause, detail in bad:
-            key = "cox:%s:%s/%s/%s" % (cc.short(ctx["matrix"]), ctx["route"], ctx["style"], ctx["inf"])
-            run.violation(key, clause, dict(case=ctx, observed=detail))
-        if sample:
-            run.sample(sample)
-    for (m, nv, even) in plan:
-        for vi in range(nv):
-            run.case(key=("cox", m, vi), action="automata(%s)" % VARIANTS[vi]["route"])
-        run.evaluations -= nv       # case() counted them; evaluations are the words compared
-    # shipped automata
-    base = len(MATS) - len(bl)
-    files = {}
-    for k, (name, M) in enumerate(bl):
-        files[(name + ".wa", True)] = (base + k, RADS[base + k])
-        files[(name + ".geowa", False)] = (base + k, RADS[base + k])
-    builtin_files(run, files)
+    run.extra["matrices"] = 0
+    run.extra["elements"] = 0
+    run.extra["reduced_words"] = 0
+    CH = 1200       # matrices per TLC run (bounds the size of TLC's output held in memory)
+    jobs = []
+    if quick or replay:
+        # one TLC run for everything
+        jobs.append(("all", [(tag, M, L, nv, even) for (tag, ms, rs, nv, even) in batches for M, L in zip(ms, rs)]))
+    else:
+        for (tag, ms, rs, nv, even) in batches:
+            rows = [(tag, M, L, nv, even) for M, L in zip(ms, rs)]
+            for c0 in range(0, len(rows), CH):
+                jobs.append(("%s_%d" % (tag, c0 // CH), rows[c0:c0 + CH]))
+    seen_variant = set()
+    for (jname, rows) in jobs:
+        MATS = [row[1] for row in rows]
+        RADS = [row[2] for row in rows]
+        plan = [(k, row[3], row[4]) for k, row in enumerate(rows)]
+        r, obs, edges, _, _ = cc.run_batch(run, "CoxeterWalk", MATS, RADS, "CoxeterWalk_" + jname,
+                                           invariants=["TypeOK", "Closed", "DescentsSane", "RelationsHold", "EmitObs"],
+                                           action_constraints=[], workers=workers if quick else min(12, core.NCPU))
+        r.stdout = ""
+        SPEC = {m: prepare(MATS[m], RADS[m], obs[m]) for m in range(len(MATS))}
+        run.extra["matrices"] += len(MATS)
+        run.extra["elements"] += sum(len(o) for o in obs)
+        run.extra["reduced_words"] += sum(len(sp["reduced"]) for sp in SPEC.values())
+        del obs, edges
+        # heavy matrices first
+        plan.sort(key=lambda a: -len(SPEC[a[0]]["reduced"]) * a[1])
+        with mp.get_context("fork").Pool(workers if quick else min(12, core.NCPU)) as pool:
+            outs = pool.map(check_matrix, plan, chunksize=4)
+        for (m, tot, bad, sample) in outs:
+            run.evaluations += tot
+            run.traces += 1
+            for ctx, clause, detail in bad:
+                key = "cox:%s:%s/%s/%s" % (cc.short(ctx["matrix"]), ctx["route"], ctx["style"], ctx["inf"])
+                run.violation(key, clause, dict(case=ctx, observed=detail))
+            if sample:
+                run.sample(sample)
+        for (m, nv, even) in plan:
+            for vi in range(nv):
+                run.case(key=("cox", jname, m, vi), action="automata(%s)" % VARIANTS[vi]["route"])
+            run.evaluations -= nv       # case() counted them; evaluations are the words compared
+        if rows[-1][0] == "builtin":
+            # shipped automata (the last rows of this job)
+            base = len(MATS) - len(bl)
+            files = {}
+            for k, (name, M) in enumerate(bl):
+                files[(name + ".wa", True)] = (base + k, RADS[base + k])
+                files[(name + ".geowa", False)] = (base + k, RADS[base + k])
+            builtin_files(run, files)
